@@ -346,6 +346,8 @@ def run_C04(ctx):
     ctx.notes['behaviours_emitted'] = len(em)
     do_replay(ctx, em, 'C04')
     traces(ctx, 300 if not ctx.thorough else 3000, 'C04')
+    from .c02 import dist_stage
+    dist_stage(ctx, 'C04', 48 if not ctx.thorough else 8)          # rows / predicted fluxes in the distance-dependent mode
 
 
 def run_C03(ctx):
@@ -366,6 +368,8 @@ def run_C03(ctx):
     ctx.notes['flag_vectors_replayed'] = len({tuple(b['src']['flag']) for b in em})
     do_replay(ctx, em, 'C03')
     traces(ctx, 200 if q else 2000, 'C03')
+    from .c02 import dist_stage
+    dist_stage(ctx, 'C03', 32 if q else 8, formats=(('perfile', False), ('cube', False)))   # flag semantics in the distance-dependent mode
 
 
 def run_C11(ctx):
@@ -383,6 +387,8 @@ def run_C11(ctx):
     for col in pmap(lambda chunk: _perm_chunk(chunk, root, ctx.seed), groups, chunks_per_proc=1):
         col.merge_into(ctx)
     traces(ctx, 300 if q else 3000, 'C11')
+    from .c02 import dist_stage
+    dist_stage(ctx, 'C11', 48 if q else 8)          # histories on one distance-dependent fitter
 
 
 def _perm_chunk(groups, root, seed):
